@@ -169,18 +169,18 @@ fn document(base: &Base, mappings: &str) -> Vec<u8> {
     format!("{{\"version\":3,\"sources\":{},\"names\":{},\"mappings\":{}}}", json!(sources), json!(names), jstr(mappings)).into_bytes()
 }
 
-fn bases() -> Vec<Base> {
+fn bases(maxseg: usize) -> Vec<Base> {
     let mut out = vec![];
     for ns in 0..=2usize {
         for nn in 0..=2usize {
-            // per line: 0..=2 segments of kind 1 (1-field), 2 (4-field), 3 (5-field)
-            let per = 1 + 3 + 9u64;
+            // per line: 0..=2 (thorough: 3) segments of kind 1 (1-field), 2 (4-field), 3 (5-field)
+            let per = crate::spaces::n_seq_upto(3, maxseg);
             for nl in 1..=2usize {
                 for k in 0..per.pow(nl as u32) {
                     let mut kk = k;
                     let mut structure = vec![];
                     for _ in 0..nl {
-                        structure.push(crate::spaces::seq_upto_unrank(3, 2, kk % per).iter().map(|x| x + 1).collect::<Vec<usize>>());
+                        structure.push(crate::spaces::seq_upto_unrank(3, maxseg, kk % per).iter().map(|x| x + 1).collect::<Vec<usize>>());
                         kk /= per;
                     }
                     if structure.iter().all(|l| l.is_empty()) || structure.last().map_or(false, |l| l.is_empty()) {
@@ -294,11 +294,11 @@ fn check_base(base: &Base) -> Option<Viol> {
 
 pub fn run(run: &mut Run) -> Finish {
     let tier = run.ctx.tier;
-    let bs = bases();
+    let bs = bases(tier.pick(2, 3));
     let nb = bs.len() as u64;
     let fc = foreign_chars();
 
-    run.par_slice("single faults: every structural fault (arity 2/3/6/7, source/name index pushed out either way incl. 2^32 wrap, continuation on last digit, 14/15-digit field) at every site, and every foreign character at every offset, of every base (<= 2 lines x <= 2 segments, array sizes {0,1,2}^2)", 1, nb, |idx, l| {
+    run.par_slice("single faults: every structural fault (arity 2/3/6/7, source/name index pushed out either way incl. 2^32 wrap, continuation on last digit, 14/15-digit field) at every site, and every foreign character at every offset, of every base (<= 2 lines x <= 2/3 segments, array sizes {0,1,2}^2)", 1, nb, |idx, l| {
         let b = &bs[(idx & 0xffff_ffff) as usize];
         if let Some(v) = check_base(b) {
             l.violation_sub(idx, 0, v);
